@@ -232,20 +232,21 @@ type Case struct {
 // enumeration families
 
 func datasets(thorough bool) []Dataset {
-	// the calendar datasets come last so that the case indices of the older families do not move
+	// the (small) calendar family comes first: when a loaded machine makes the wall budget cap the run, the cut falls
+	// into the large slot families, which are visited narrow-bounds-first, and no family is dropped as a whole
 	if !thorough {
 		return []Dataset{
+			{Kind: "cal", Place: "months", Layout: "mixed"},
 			{Kind: "masks", N: 6, Place: "straddle", Layout: "mixed"},
 			{Kind: "big", Place: "single", Layout: "mixed"},
-			{Kind: "cal", Place: "months", Layout: "mixed"},
 		}
 	}
 	return []Dataset{
+		{Kind: "cal", Place: "months", Layout: "mixed"},
+		{Kind: "cal", Place: "months", Layout: "tsm"},
 		{Kind: "masks", N: 8, Place: "straddle", Layout: "mixed"},
 		{Kind: "masks", N: 7, Place: "single", Layout: "tsm"},
 		{Kind: "big", Place: "single", Layout: "mixed"},
-		{Kind: "cal", Place: "months", Layout: "mixed"},
-		{Kind: "cal", Place: "months", Layout: "tsm"},
 	}
 }
 
@@ -429,7 +430,7 @@ func calBounds(thorough bool) [][2]int64 {
 			}
 		}
 	} else {
-		for _, ij := range [][2]int{{0, 8}, {1, 7}, {2, 6}, {3, 5}, {4, 7}, {0, 3}, {5, 8}, {1, 2}} {
+		for _, ij := range [][2]int{{0, 8}, {1, 7}, {2, 6}, {3, 5}, {0, 3}, {1, 2}} {
 			out = append(out, [2]int64{l[ij[0]], l[ij[1]]})
 		}
 	}
@@ -1469,8 +1470,8 @@ func TestCheck(t *testing.T) {
 			"Requests per mask dataset: bounds = every [a,b) with 0<=a<b<=N (21 / 36 / 28) x window (every,offset) in {(1,0),(2,0),(2,1),(3,0),(3,1),(1,1),(inf,0)} (quick: (1,0),(2,1),(3,0),(inf,0)); period=every x (field,aggregate) in {f,i,u}x{count,sum,mean,min,max,first,last} + {s,b}x{count,first,last} (quick: fields f,i,s) x createEmpty {f,t} x timeColumn {none,_start,_stop} x forceAggregate {f,t} (t only for selectors), " +
 			"each run with reads.MaxPointsPerBlock=3 (const->var overlay: every table-buffer / cursor-array boundary is crossed with <=8 points) and with the shipped 1000 (thorough: on the N=8 dataset; quick: windows (2,1),(3,0) and fields f,i only). " +
 			"Structured dataset 'big' on the shipped buffer size: 3 series with points at {0}, {0,999,1000,1001}, {5,1999,2000,2400}, every=1ns, bounds [0,1000),[0,1001),[0,2500) (quick: the last two), fields f,i,s (quick f,s), same aggregate/createEmpty/timeColumn/forceAggregate product (up to 2500 windows per series). " +
-			"Calendar dataset 'cal' (appended after the older families): 53 series over the instants b-1ns, b, b+1ns of the boundaries b = 1999-12-01, 2000-01-01 (year), 2000-02-01, 2000-02-29 (leap day), 2000-03-01, 2000-04-01 and noon of the 15th of Dec..Mar (every non-empty subset of {b-1ns,b,b+1ns} per boundary, first+last nanosecond of every period between two boundaries, all b-1ns / all b / all b+1ns, the mid-month points, all boundary points, all points), 80-day shard groups so that the data lies in exactly two shard groups (boundary 2000-02-11, inside the February windows), boundary instants in TSM and the +-1ns neighbours in the cache (thorough also: everything in TSM). " +
-			"Requests on it through the Flux reader: bounds = 8 pairs (thorough: all 36 pairs) of {1999-12-01-1ns, 1999-12-01, 2000-01-01, 2000-01-01+1ns, 2000-01-15T12, 2000-02-29, 2000-03-01+1ns, 2000-04-01, 2000-04-01+2ns} x window every in {1mo,2mo,3mo,12mo} (Every.Nsecs=0, Months>0; a mix of months and nanoseconds in `every` is rejected by interval.NewWindow) x offset in {0, 1ns, 1mo+1ns} (thorough also 1mo) + the control window every=720h x the same (field,aggregate) x createEmpty x timeColumn x forceAggregate product, shipped buffer size (thorough: also 3); windows computed with time.Date (UTC) month arithmetic. " +
+			"Calendar dataset 'cal' (visited first): 53 series over the instants b-1ns, b, b+1ns of the boundaries b = 1999-12-01, 2000-01-01 (year), 2000-02-01, 2000-02-29 (leap day), 2000-03-01, 2000-04-01 and noon of the 15th of Dec..Mar (every non-empty subset of {b-1ns,b,b+1ns} per boundary, first+last nanosecond of every period between two boundaries, all b-1ns / all b / all b+1ns, the mid-month points, all boundary points, all points), 80-day shard groups so that the data lies in exactly two shard groups (boundary 2000-02-11, inside the February windows), boundary instants in TSM and the +-1ns neighbours in the cache (thorough also: everything in TSM). " +
+			"Requests on it through the Flux reader: bounds = 6 pairs (thorough: all 36 pairs) of {1999-12-01-1ns, 1999-12-01, 2000-01-01, 2000-01-01+1ns, 2000-01-15T12, 2000-02-29, 2000-03-01+1ns, 2000-04-01, 2000-04-01+2ns} x window every in {1mo,2mo,3mo,12mo} (Every.Nsecs=0, Months>0; a mix of months and nanoseconds in `every` is rejected by interval.NewWindow) x offset in {0, 1ns, 1mo+1ns} (thorough also 1mo) + the control window every=720h x the same (field,aggregate) x createEmpty x timeColumn x forceAggregate product, shipped buffer size (thorough: also 3); windows computed with time.Date (UTC) month arithmetic. " +
 			"Request forms on the same dataset: reads.Store.WindowAggregate (the call the Flux reader makes) is called directly with the window given as WindowEvery/Offset int64 and as a Window message, every in {720h, 720h offset 1ns, 168h, MaxInt64}, plus calendar months {1,2,3,12}mo x offset {0, 1ns, 1mo+1ns} as a Window message, x the same bounds x (field,aggregate): every series cursor must yield one (time,value) pair per non-empty window, ascending, value = aggregate of the raw rows, time = unclipped window stop (count/sum/mean; not judged for MaxInt64) or the time of a raw row carrying the value (selectors). " +
 			"Oracle: reference computed from the rows ReadFilter returns through the same reader for the same bounds (see file header). non-trivial = (series, request) pairs whose series has >=1 raw row in the bounds (distinct by construction).",
 		Assumptions: []string{
@@ -1507,7 +1508,7 @@ func TestCheck(t *testing.T) {
 							continue
 						}
 						if c.Expired() {
-							c.Cap(fmt.Sprintf("wall budget: requests are visited dataset by dataset (buffer size 3 before 1000), narrow bounds first; a shard stopped in dataset %+v", ds))
+							c.Cap(fmt.Sprintf("wall budget: requests are visited dataset by dataset (calendar dataset first; buffer size 3 before 1000), narrow bounds first; a shard stopped in dataset %+v", ds))
 							if h != nil {
 								h.close()
 							}
